@@ -11,7 +11,8 @@ ops (tab separated; lists `;`-separated, `-` = empty; value = `N` or an integer)
   `poke <l> <r> <v>`   put v into layer l's memory (what a read returns)
   `read <r>` · `readb <regs>` · `write <v> <r>` · `writeb <vals> <regs>`
   `readbm <regs>`      deliberately wrong variant of `readb` (used by the harness self-test only)
-answer: result, calls made to the layers, per-layer memory (layers 0..3, registers 0..7).
+answer: result, per-layer sequence of delivered (register, value) pairs, per-layer memory (layers 0..3,
+registers 0..7).  `readbg` / `writebg`: the same ops called with generator-typed arguments on the Python side.
 -/
 
 abbrev V := Option Int
@@ -58,8 +59,22 @@ def showMem (m : Mem V) : String :=
     (m l r).map fun v => s!"{l}.{r}={v}"
   if cells.isEmpty then "-" else ",".intercalate cells
 
-def render (o : Out V) : String :=
-  s!"{showRes o.res}\tcalls={if o.calls.isEmpty then "-" else " ".intercalate (o.calls.map showCall)}\tmem={showMem o.mem}"
+/-- what the property speaks about: per layer (0..3), the (register, value) pairs delivered to it during
+    this op, in delivery order, whatever calls carried them; `~` for a batch that names a register twice
+    (only the resulting memory is claimed then).  Read calls are not shown: how the layers are asked is
+    not part of the property. -/
+def showWlog (o : Out V) (dup : Bool) : String :=
+  if dup then "~" else
+  let per := (List.range 4).filterMap fun l =>
+    let ps := (o.calls.filter (fun c => c.layer = l)).flatMap (fun c => c.regs.zip c.vals)
+    if ps.isEmpty then none
+    else some (s!"{l}[" ++ ",".intercalate (ps.map (fun e => s!"{e.1}={showV e.2}")) ++ "]")
+  if per.isEmpty then "-" else " ".intercalate per
+
+def hasDup (rs : List Nat) : Bool := rs.eraseDups.length != rs.length
+
+def render (o : Out V) (dup : Bool := false) : String :=
+  s!"{showRes o.res}\twlog={showWlog o dup}\tmem={showMem o.mem}"
 
 def small (rs : List Nat) : Bool := rs.all (· < 8)
 
@@ -86,6 +101,7 @@ def step (d : DState) (line : String) : DState × String :=
       let o := read d.cfg d.mem r
       ({ d with mem := o.mem }, render o)
     | none => (d, "bad-op")
+  | ["readbg", rs]   -- generator-typed argument: same list for the model
   | ["readb", rs] =>
     match parseList String.toNat? rs with
     | some rs => if !small rs then (d, "bad-op") else
@@ -108,11 +124,12 @@ def step (d : DState) (line : String) : DState × String :=
       let o := write d.cfg d.mem v r
       ({ d with mem := o.mem }, render o)
     | _, _ => (d, "bad-op")
+  | ["writebg", vs, rs]
   | ["writeb", vs, rs] =>
     match parseList parseV vs, parseList String.toNat? rs with
     | some vs, some rs => if !small rs then (d, "bad-op") else
       let o := writeBatch d.cfg d.mem vs rs
-      ({ d with mem := o.mem }, render o)
+      ({ d with mem := o.mem }, render o (hasDup ((pairs vs rs).map (·.1))))
     | _, _ => (d, "bad-op")
   | _ => (d, "bad-op")
 
